@@ -331,8 +331,14 @@ CTOR_LEADS = ['(x)*(y)', '(a)/(b)', 'x*y', '(a+b)', 'a+b*x', '-x', '(-x)*y', '((
 CTOR_TERMS = ['y', '-x', 'x*y', '2']
 
 
+# leads stated in the ONE-string form Equation('z = <lead>'), with a comparison (a second '=') inside
+ONESTRING_LEADS = ['(a >= b)*c', 'c*(a <= b)', '(a == b)*c', '(a != b) + c', 'x*y', '(a+b)']
+
+
 def ctor_cases(tier):
-    return [(lead, ts) for lead in CTOR_LEADS for n in (0, 1, 2) for ts in itertools.product(CTOR_TERMS, repeat=n)]
+    out = [(lead, ts) for lead in CTOR_LEADS for n in (0, 1, 2) for ts in itertools.product(CTOR_TERMS, repeat=n)]
+    out += [('=' + lead, ts) for lead in ONESTRING_LEADS for n in (0, 1) for ts in itertools.product(CTOR_TERMS, repeat=n)]
+    return out
 
 
 def ctor_chunk(cases):
@@ -341,8 +347,11 @@ def ctor_chunk(cases):
     env = lambda nme: z3.Real('X_' + nme)
     D = Decider()
     for lead, ts in cases:
+        onestring = lead.startswith('=')
+        if onestring:
+            lead = lead[1:]
         try:
-            eq = Equation('z', '', lead)
+            eq = Equation('z = ' + lead) if onestring else Equation('z', '', lead)
             for t in ts:
                 eq.AddTerm(t)
             rhs = eq.RHS()
@@ -353,13 +362,15 @@ def ctor_chunk(cases):
             continue
         n += 1
         try:
-            got = to_z3(rhs, env)
-            want = to_z3(lead, env)
+            got = to_z3(rhs, env, opaque=True)
+            want = to_z3(lead, env, opaque=True)
             for t in ts:
                 want = want + to_z3(t, env)
         except Untranslatable as e:
-            bad.append((lead, ts, 'rendering %r does not parse: %s' % (rhs, e)))
+            bad.append((('=' if onestring else '') + lead, ts, 'rendering %r does not parse: %s' % (rhs, e)))
             continue
+        if onestring:
+            lead = '=' + lead
         if not z3.eq(z3.simplify(got - want), z3.RealVal(0)):
             r, mdl = D.decide([got != want, env('b') != 0, env('y') != 0, env('x') != 0], ladder=False, timeout_ms=10000)
             if r == 'sat':
@@ -373,8 +384,10 @@ REPLAY_CTOR = """
 import sys, random
 from sfc_models.equation import Equation
 lead, ts = %(case)r
+onestring = lead.startswith('=')
+if onestring: lead = lead[1:]
 try:
-    eq = Equation('z', '', lead)
+    eq = Equation('z = ' + lead) if onestring else Equation('z', '', lead)
     for t in ts: eq.AddTerm(t)
     rhs = eq.RHS()
 except Exception as e:
@@ -383,7 +396,11 @@ print('Equation(%%r) + %%r renders %%r' %% (lead, ts, rhs))
 rnd = random.Random(11); bad = False
 for i in range(5):
     env = {n: rnd.uniform(0.5, 3.0) for n in 'xyab'}
-    got = eval(rhs, {}, env); want = eval('(%%s)' %% lead, {}, env) + sum(eval('(%%s)' %% t, {}, env) for t in ts)
+    try:
+        got = eval(rhs, {}, env)
+    except Exception as e:
+        print('the rendering is not a valid expression:', repr(e)); bad = True; break
+    want = eval('(%%s)' %% lead, {}, env) + sum(eval('(%%s)' %% t, {}, env) for t in ts)
     if abs(got - want) > 1e-9 * (1 + abs(got) + abs(want)): print('at', env, 'renders', got, 'expected', want); bad = True; break
 sys.exit(1 if bad else 0)
 """
